@@ -1,6 +1,7 @@
 import PrimitivModel.Lemmas.Rng
 import Mathlib.Data.Int.SuccPred
 import Mathlib.Algebra.Order.Field.Rat
+import Mathlib.Tactic.NormNum
 /-
 Property C17 — random sources and initializers honour their contracts,
 reproducibly.  PARTIAL by design: that `std::mt19937` and the libstdc++
@@ -336,6 +337,12 @@ example : guard_random_bernoulli exIeee (some 2) = true ∧ guard_random_bernoul
   decide
 
 example : (deviceIdentity exInt 2).toOption.map (·.data) = some [1, 0, 0, 1] := by decide
+
+/-- `Drop.scaling` at rate 1/2 over ℚ: the kept element is doubled, the dropped one is 0 (draws 1/4 < 1/2 ≤ 3/4). -/
+example : ∃ y, dropoutTensor exRat [1/4, 3/4] ⟨⟨[2], 1, 2⟩, [3, 5]⟩ (1/2) true = .ok y ∧ y.data = [6, 0] := by
+  refine ⟨⟨⟨[2], 1, 2⟩, [6, 0]⟩, ?_, rfl⟩
+  norm_num [dropoutTensor, dropout, tensorVar, exRat, deviceRandom, Device_random_bernoulli, guard_random_bernoulli,
+    fill, sample, fillElem, fill_bernoulli_elem, stdDraw, Shape.size, mul32, pure, Except.pure, bind, Except.bind]
 
 /-- the Conv2D fans of a 3×3 kernel with 2 input and 4 output channels: 18 and 36 -/
 example : convFanIn ⟨[3, 3, 2, 4], 1, 72⟩ = 18 ∧ convFanOut ⟨[3, 3, 2, 4], 1, 72⟩ = 36 := by decide
